@@ -80,6 +80,9 @@ type Step struct {
 	// the late operation's first request was answered (registry systems; a layout has no requests to count)
 	Late int `json:"late,omitempty"`
 	At   int `json:"at,omitempty"`
+	// Force (saved cases only, never generated): issue the race concurrently even while the root cause it shows is
+	// listed as a known finding (the generator's cases then run one operation after the other)
+	Force bool `json:"force,omitempty"`
 	// Var is a variant of how the operation is issued (ways /repo itself reaches the API):
 	//   tagdig  reference carries tag AND digest (regctl manifest delete --force-tag-dereference, "repo:tag@digest" arguments)
 	//   bare    reference without tag (means "latest"; only drawn for that tag)
@@ -242,6 +245,14 @@ func genStep(t *rapid.T, l string, kinds []string, tagIdx int) Step {
 				continue
 			}
 			s.Batch = append(s.Batch, Step{Op: "put", Tag: tg, Man: rapid.SampledFrom([]int{0, 0, 0, 1, 1, 2, 2, 3, 4}).Draw(t, fmt.Sprintf("%s_rman%d", l, i))})
+		}
+		if rapid.IntRange(0, 2).Draw(t, l+"_rmandel") == 0 {
+			// the deleter is a manifest delete of the very manifest one of the pushes writes
+			victim := 0
+			if pos == 0 {
+				victim = 1
+			}
+			s.Batch[pos] = Step{Op: "mandel", Tag: tg, Man: s.Batch[victim].Man, CheckRef: rapid.Bool().Draw(t, l+"_rcheckref")}
 		}
 		s.Late = rapid.IntRange(0, np-1).Draw(t, l+"_rlate")
 		if s.Late >= pos {
@@ -1306,7 +1317,10 @@ func own(sym string, isOwn bool) string {
 const (
 	sigFullName = "layout-fullname-entry-ignored-by-write"
 	sigAdjacent = "layout-tagdelete-skips-adjacent-duplicate"
-	sigDigPush  = "layout-digest-push-adds-tagged-entry"
+	// reg.WithCache: ManifestDelete drops the cache entry BEFORE its DELETE request, ManifestPut (and ManifestGet) set
+	// it after theirs: a push of the same manifest that is answered in between leaves the deleted manifest in the cache
+	sigCacheStale = "race:manifest-cache-stale-after-push-raced-delete"
+	sigDigPush    = "layout-digest-push-adds-tagged-entry"
 )
 
 type deviation struct {
@@ -1634,13 +1648,13 @@ type raceKey struct{}
 
 // raceGate owns the one scheduling decision of a race step: when the late operation starts.
 type raceGate struct {
-	mu             sync.Mutex
-	cond           *sync.Cond
-	late, at       int
-	arrivals       int
-	released       bool // the late operation may start
-	lateAnswered   bool // its first request was answered (or it ended without one)
-	others, ended  int
+	mu            sync.Mutex
+	cond          *sync.Cond
+	late, at      int
+	arrivals      int
+	released      bool // the late operation may start
+	lateAnswered  bool // its first request was answered (or it ended without one)
+	others, ended int
 }
 
 func (g *raceGate) onArrive(en *rm.Entry) {
@@ -1686,11 +1700,48 @@ func (e *env) race(s Step) *evid.Violation {
 		return nil
 	}
 	e.ntConc = true
-	e.class(fmt.Sprintf("race:put-vs-tagdel-%d", len(s.Batch)))
+	pre := e.mod.clone()
+	delKind := "tagdel"
+	for _, b := range s.Batch {
+		if b.Op == "mandel" {
+			delKind = "mandel"
+			if pre.file[pool.Mans[b.Man].Digest] == maybe {
+				// an unreferenced layout manifest that may or may not still exist: its delete may fail or succeed,
+				// nothing can be concluded from the outcome; issued one after the other
+				e.class("race:sequential-fallback")
+				for _, x := range s.Batch {
+					if v := e.plain(x); v != nil {
+						return v
+					}
+				}
+				return nil
+			}
+		}
+	}
+	if delKind == "mandel" && !s.Force {
+		seq := ""
+		switch {
+		case len(pre.shadow) > 0 || len(pre.reprobe) > 0:
+			// entries other tools left for a tag: the model follows them step by step (verify resolves what a
+			// manifest delete uncovered before the next operation), not through a whole order at once
+			seq = "race:sequential-fallback-foreign-entries"
+		case !e.lay && e.c.Feat.Cache && e.ev.IsKnown(sigCacheStale):
+			seq = "race:sequential-fallback-known-cache-finding"
+		}
+		if seq != "" {
+			e.class(seq)
+			for _, x := range s.Batch {
+				if v := e.plain(x); v != nil {
+					return v
+				}
+			}
+			return nil
+		}
+	}
+	e.class(fmt.Sprintf("race:put-vs-%s-%d", delKind, len(s.Batch)))
 	if !e.lay && !e.c.Feat.TagDelete {
 		e.class("race:placeholder-fallback-delete")
 	}
-	pre := e.mod.clone()
 	if _, ok := pre.tags[Tags[s.Tag]]; ok {
 		e.class("race:tag-present-before")
 		if pre.sharers(pre.tags[Tags[s.Tag]]) > 1 {
@@ -1755,6 +1806,12 @@ func (e *env) race(s Step) *evid.Violation {
 				res[i] = opResult{err: e.rc.ManifestPut(ctx, e.tagRef(Tags[b.Tag]), m)}
 			case "tagdel":
 				res[i] = opResult{err: e.rc.TagDelete(ctx, e.tagRef(Tags[b.Tag]))}
+			case "mandel":
+				opts := []regclient.ManifestOpts{}
+				if b.CheckRef {
+					opts = append(opts, regclient.WithManifestCheckReferrers())
+				}
+				res[i] = opResult{err: e.rc.ManifestDelete(ctx, e.digRef(pool.Mans[b.Man].Digest), opts...)}
 			}
 		}(i)
 	}
@@ -1804,6 +1861,14 @@ func (e *env) race(s Step) *evid.Violation {
 			if mod.tags[Tags[s.Tag]] != got {
 				return
 			}
+			// the stored manifests the operations addressed must be those this order leaves
+			for _, b := range s.Batch {
+				d := pool.Mans[b.Man].Digest
+				has := e.rawHas(d)
+				if (mod.file[d] == present && !has) || (mod.file[d] == absent && has) {
+					return
+				}
+			}
 			chosen = mod
 			chosenOrder = fmt.Sprint(idx)
 			return
@@ -1830,9 +1895,32 @@ func (e *env) race(s Step) *evid.Violation {
 	}
 	e.mod = chosen
 	if sym, msg := e.verify("", ""); sym != "" {
+		if delKind == "mandel" && !e.lay && e.c.Feat.Cache && strings.Contains(sym, "manifest-still-resolves") {
+			for _, b := range s.Batch {
+				if d := pool.Mans[b.Man].Digest; b.Op == "mandel" && chosen.file[d] == absent && !e.rawHas(d) && strings.Contains(msg, manName(d)) {
+					return evid.V(sigCacheStale, "after %s (explained as order %s) the registry no longer stores %s, but the client (reg.WithCache) still answers for it: %s", describe(s), chosenOrder, manName(d), msg)
+				}
+			}
+		}
 		return evid.V("race:"+sym, "after %s (explained as order %s): %s", describe(s), chosenOrder, msg)
 	}
 	return nil
+}
+
+// rawHas: raw storage holds manifest d (registry map / blob file of the layout).
+func (e *env) rawHas(d string) bool {
+	if e.lay {
+		_, ok := readBlobFile(e.dir, d)
+		return ok
+	}
+	e.m.Lock()
+	defer e.m.Unlock()
+	r := e.h.Repos[regRepo]
+	if r == nil {
+		return false
+	}
+	_, ok := r.Manifests[d]
+	return ok
 }
 
 // blockedByKnown: while a root cause is listed as a known finding, a batch that
